@@ -67,6 +67,8 @@ try:
         t = time.time()
         r = subprocess.run(["/verif/check", pid, "--tier", a.tier], env=env, capture_output=True, text=True)
         v = [l for l in r.stdout.splitlines() if l.startswith("violation:")]
+        if r.returncode == 1 and not any(l.startswith("VIOLATION property=") for l in r.stdout.splitlines()):
+            r.returncode = 2  # a crash of the check itself is a harness fault, never a detection
         res[pid] = dict(tier=a.tier, exit=r.returncode, first_violation=(v[0][:300] if v else ""), wall_s=round(time.time() - t, 1))
         print(pid, "rc=%d" % r.returncode, (v[0][:200] if v else r.stderr[-300:] if r.returncode == 2 else ""))
     meta["checks"] = res
